@@ -56,7 +56,7 @@ PROPS = {
                  "2^64-1. One case = one (policy, ID map, scheme, subset). Non-trivial: subset neither empty nor full, or policy not a "
                  "plain threshold; distinct = distinct (family, policy, scheme, subset class, field, secret class, ID regime)."),
         "assumptions": COMMON_ASSUME,
-        "quick": {"scale": 1, "shards": 12, "timeout_s": 900},
+        "quick": {"scale": 1, "shards": 12, "timeout_s": 3000},
         "thorough": {"scale": 8, "shards": 16, "timeout_s": 3600},
     },
     # temporary entry added by the C08 builder (lead: replace/adjust as needed)
@@ -73,8 +73,8 @@ PROPS = {
                  "verify; OR proves with exactly one witness (each branch) and refuses with none. Non-trivial: every negative case and every "
                  "completeness case with a drawn context; distinct = (protocol, compiler, composition shape, group, negative-case kind)."),
         "assumptions": COMMON_ASSUME,
-        "quick": {"scale": 1, "shards": 16, "timeout_s": 900},
-        "thorough": {"scale": 10, "shards": 16, "timeout_s": 7200},
+        "quick": {"scale": 1, "shards": 16, "timeout_s": 3600},
+        "thorough": {"scale": 10, "shards": 16, "timeout_s": 14400},
     },
     # temporary entry added by the C13 builder (lead: replace/adjust as needed)
     "C13": {
